@@ -382,7 +382,10 @@ fn parse_check_line(mut line: &str) -> anyhow::Result<ParsedCheckLine> {
         bail!("Invalid check line format");
     }
 
-    // Decode the hex hash.
+    // Decode the hex hash. The length check below counts bytes, so rule out multi-byte characters
+    // first. (Otherwise e.g. 62 hex digits plus one two-byte character passes the length check and
+    // then runs out of characters in the loop below.)
+    ensure!(hash_hex.is_ascii(), "Invalid hex");
     ensure!(hash_hex.len() == 2 * blake3::OUT_LEN, "Invalid hash length");
     let mut hex_chars = hash_hex.chars();
     let mut hash_bytes = [0; blake3::OUT_LEN];
